@@ -232,7 +232,12 @@ class Run:
                     ok = killed or unreb_result or bool(set(raised) & UNREBUILDABLE) or \
                         (lib.base_kind(kind) != 'thread' and bool(set(raised) & BASE_ONLY))
                     if not ok:
-                        V.append({'clause': 'error-reported', 'manifestation': 'error-none:' + cause,
+                        # a final report larger than 16 KiB is written by multiprocessing.Connection as two writes (see the known
+                        # finding): name that input, so that the same landing with a small report stays a different signature
+                        kv = (c.get('kwargs') or {}).get('v')
+                        big = ':report>16KiB' if (isinstance(kv, dict) and kv.get('$') == 'bytes' and kv.get('n', 0) > 16384
+                                                  and ':in-stdlib:Connection.' in cause) else ''
+                        V.append({'clause': 'error-reported', 'manifestation': 'error-none:' + cause + big,
                                   'detail': {'rec': rec, 'raised': raised, 'landed': sorted(landed), 'landings': s.landings[-3:]}})
                 else:
                     allowed = set(raised) | landed
